@@ -398,7 +398,7 @@ theorem live_never_expired (cfg : Timer.Cfg) (recording : Bool) (hr : 0 < cfg.re
 example : Timer.PeerLive { idle := 3 * Timer.sec, read := 2 * Timer.sec } false 0 0
     [.tick Timer.sec, .request Timer.sec, .tick (2 * Timer.sec)] := by simp [Timer.PeerLive, Timer.sec]
 
-/-- With packet times kept in nanoseconds (fix c10dc6a) a publisher with ReadTimeout = 1 s that
+/-- With packet times kept in nanoseconds (fix a905e5a) a publisher with ReadTimeout = 1 s that
 sends a packet every 100 ms is live; the same timeline was timed out while the code kept the times
 in whole seconds (packet at 1.9 s stored as 1 s, check at 2.0 s). -/
 theorem record_1s_live :
